@@ -26,10 +26,12 @@ False of the current code (kept at full strength, kernel-checked counterexample 
   * `root_canonical` (API level: same key → value map ⇒ same tree and root, inserts/updates/deletes in any order),
     `encC_collapse` (hashed and unhashed node forms encode to the same bytes), `root_binding` / `enc_injective`
     (same root ⇒ same tree, under collision-freeness on the node encodings of the two tries)
+  * C10Reload.`C10_reload`: commit + reopen (full resolution of the root hash through the node database and the executable
+    decoder) gives back the same tree; `expand_collapse`
   * `sane_runB` (with C10Sane.`sane_of_content`): the data precondition `Sane` holds for every trie built through `update`
     from keys < 2^31 bytes and values < 2^32 bytes
 -/
-import LinkVerif.Props.C10Sane
+import LinkVerif.Props.C10Reload
 
 namespace Props.C10
 open Model.Trie
@@ -888,5 +890,18 @@ theorem sane_runB (H : Bytes → Bytes) (h32 : H32 H) (ops : List (Bytes × Byte
         have e31 : (2:Nat) ^ 31 = 2147483648 := by decide
         rw [e31] at this; rw [two32]; omega
       · intro e; rw [e] at hve; simp at hve
+
+
+/-- non-vacuity of `C10_reload`: a one-leaf trie stored under its hash (toy hash `pad32`) is recovered from the root hash -/
+example : reload pad32 (dbOf pad32 [enc pad32 (.short (keybytesToHex [1]) (.value [7]))])
+    (height (.short (keybytesToHex [1]) (.value [7])) + 1) (root pad32 (.short (keybytesToHex [1]) (.value [7])))
+    = some (.short (keybytesToHex [1]) (.value [7])) := by
+  have hw : RootWF (.short (keybytesToHex [1]) (.value [7])) :=
+    Or.inr ⟨⟨keyOK_of_suf (keybytesToHex_hex [1]).1 (by simp [keybytesToHex]), rfl, trivial⟩, rfl⟩
+  have hsane : Sane pad32 (.short (keybytesToHex [1]) (.value [7])) := by
+    refine ⟨?_, by simp, by simp [Sz]⟩
+    have : (enc pad32 (.short (keybytesToHex [1]) (.value [7]))).length = 5 := by decide
+    rw [this]; simp [Sz]
+  exact C10_reload pad32 pad32_h32 _ _ hw rfl hsane ⟨by decide, trivial⟩
 
 end Props.C10
